@@ -105,8 +105,10 @@ def run(res, tier, build_ok):
                     continue
                 res.count("method x command set")
                 subsets = list(optional_subsets(optional))
-                if sn != "sbc" and len(subsets) > 4:
-                    subsets = rng.sample(subsets, 4)
+                if sn != "sbc" and len(subsets) > 4 * scale:
+                    subsets = rng.sample(subsets, 4 * scale)
+                if scale > 1:
+                    subsets = subsets * 2          # every subset with two different argument tuples
                 for si, sub in enumerate(subsets):
                     kw0 = c01.finalize_kwargs(c, base_cases[si % len(base_cases)], rng)
                     blocksize = kw0.pop("blocksize", 0) if "blocksize" in [p[0] for p in c["params"]] and not c["cls"].startswith("ATA") else 0
@@ -183,6 +185,11 @@ def run(res, tier, build_ok):
                     if sent[0] is not cmd or sent[2] is not cmd.dataout or sent[3] is not cmd.datain or sent[1] != bytes(cmd.cdb):
                         res.violation(sig + " returned object differs", "SCSI.%s returns a command/buffers other than the ones handed to the device" % meth,
                                       {"method": meth, "set": sn, "args": shown})
+                        continue
+                    if "after" in seen and bytes(cmd.datain) != seen["after"]:
+                        res.violation(sig + " datain changed after the device filled it",
+                                      "SCSI.%s: the data-in buffer the caller gets back (%d bytes) is not the buffer as the device left it (%d bytes)" % (
+                                          meth, len(cmd.datain), len(seen["after"])), {"method": meth, "set": sn, "args": shown})
                         continue
                     if cmd.opcode is not op or cmd.cdb[0] != s["opcode"]:
                         res.violation(sig + " opcode", "SCSI.%s used opcode %s, the device's set assigns %s" % (meth, cmd.opcode, op),
